@@ -20,7 +20,7 @@ Proof.
 Qed.
 
 Lemma psf_fixed k : forall val pos content den,
-  (k = O \/ p10 (k - 1) < den) -> 0 <= val < p10 k -> 0 <= pos -> pos + Z.of_nat k <= 31 ->
+  (k = O \/ p10 (k - 1) < den) -> 0 <= val < p10 k -> 0 <= pos -> pos + Z.of_nat k <= 47 ->
   exists ds, psf_loop (pows k) den true pos content val = Ok (Some (pos + Z.of_nat k, content ++ ds)) /\
              all_digits ds = true /\ length ds = k /\ dec_value ds = val.
 Proof.
@@ -64,7 +64,7 @@ Qed.
 
 Definition frac_width (w : nat) : Prop := w = 3%nat \/ w = 6%nat \/ w = 9%nat.
 
-Lemma psf_print w pos content cnt : frac_width w -> 0 <= cnt < p10 w -> 0 <= pos -> pos + 1 + Z.of_nat w <= 31 ->
+Lemma psf_print w pos content cnt : frac_width w -> 0 <= cnt < p10 w -> 0 <= pos -> pos + 1 + Z.of_nat w <= 47 ->
   print_sec_fractions pos content I64 (p10 w) cnt true =
   Ok (Some (pos + 1 + Z.of_nat w, content ++ [c_dot] ++ pad0 w (dec cnt))).
 Proof.
@@ -96,76 +96,78 @@ Proof.
   destruct (padded_numeral 2 v) as (A & B & C); [change (p10 2) with 100; lia | lia |]. auto.
 Qed.
 
-(* the year as printed by  ('+' if >= 10000) ++ snprintf "%04ld" *)
-Definition year_printed (y : Z) : list N := (if 10000 <=? y then [c_plus] else []) ++ fmt_int 4 y.
+(* the year as PrintIsoUtc writes it: '+' from 10000, '-' below zero, the magnitude with %04 *)
+Definition year_printed (y : Z) : list N :=
+  (if 10000 <=? y then [c_plus] else if y <? 0 then [c_minus] else []) ++
+  pad0 4 (dec (if y <? 0 then cast U64 (0 - cast U64 y) else cast U64 y)).
 
-Lemma year_printed_spec y : - p10 18 < y < p10 18 -> (y <= -1000 \/ 0 <= y) -> year_printed y = year_text y.
+Lemma abs_year y : fits I64 y = true -> (if y <? 0 then cast U64 (0 - cast U64 y) else cast U64 y) = Z.abs y.
 Proof.
-  intros Hy Hc. unfold year_printed, year_text, fmt_int.
+  intros Hy. apply fits_I64 in Hy. destruct (Z.ltb_spec y 0).
+  - pose proof (cast_range U64 y) as R1. pose proof (cast_mod U64 y) as M1.
+    set (u := cast U64 y) in *. clearbody u.
+    pose proof (cast_range U64 (0 - u)) as R2. pose proof (cast_mod U64 (0 - u)) as M2.
+    set (w := cast U64 (0 - u)) in *. clearbody w.
+    unfold fits, tmin, tmax, half, modulus in *. cbn [is_signed] in *. lia.
+  - rewrite cast_fits by (apply fits_U64; lia). lia.
+Qed.
+
+Lemma year_printed_spec y : fits I64 y = true -> year_printed y = year_text y.
+Proof.
+  intros Hy. unfold year_printed, year_text. rewrite (abs_year y Hy). apply fits_I64 in Hy.
   destruct (Z.ltb_spec y 0) as [Hneg|Hnn].
-  - replace (10000 <=? y) with false by lia. cbn [app]. f_equal.
-    assert (Hl : (3 < length (dec (- y)))%nat) by (apply dec_length_ge; change (p10 3) with 1000; pose proof (p10_mono 18 20 ltac:(lia)); lia).
-    rewrite !pad0_noop by lia. reflexivity.
-  - destruct (Z.leb_spec 10000 y) as [Hbig|Hsmall].
+  - replace (10000 <=? y) with false by lia. rewrite Z.abs_neq by lia. reflexivity.
+  - rewrite Z.abs_eq by lia. destruct (Z.leb_spec 10000 y) as [Hbig|Hsmall].
     + replace (y <=? 9999) with false by lia. cbn [app]. f_equal.
-      assert (Hl : (4 < length (dec y))%nat) by (apply dec_length_ge; change (p10 4) with 10000; pose proof (p10_mono 18 20 ltac:(lia)); lia).
+      assert (Hl : (4 < length (dec y))%nat).
+      { apply dec_length_ge. change (p10 4) with 10000. change (p10 20) with 100000000000000000000. lia. }
       rewrite pad0_noop by lia. reflexivity.
     + replace (y <=? 9999) with true by lia. reflexivity.
 Qed.
 
-(* length of the printed year: at most one sign and k digits when |y| < 10^k (k >= 4) *)
-Lemma year_printed_length y k : - p10 k < y < p10 k -> (4 <= k <= 18)%nat -> (length (year_printed y) <= S k)%nat.
+(* length of the year text: at most one sign and k digits when |y| < 10^k (k >= 4) *)
+Lemma year_text_length y k : - p10 k < y < p10 k -> (4 <= k <= 18)%nat -> (length (year_text y) <= S k)%nat.
 Proof.
-  intros Hy Hk. unfold year_printed, fmt_int.
+  intros Hy Hk. unfold year_text.
   assert (H20 : p10 k <= p10 18) by (apply p10_mono; lia).
   destruct (Z.ltb_spec y 0) as [Hneg|Hnn].
-  - replace (10000 <=? y) with false by lia. cbn [app length]. rewrite pad0_length.
+  - cbn [length]. rewrite pad0_length.
     pose proof (dec_length_le (- y) k ltac:(lia) ltac:(lia)). lia.
-  - rewrite app_length, pad0_length. pose proof (dec_length_le y k ltac:(lia) ltac:(lia)).
-    destruct (10000 <=? y) eqn:E; cbn [length]; [|lia].
-    assert (k >= 5)%nat.
-    { destruct (Nat.le_gt_cases 5 k); [lia|]. assert (k = 4%nat) by lia. subst k. change (p10 4) with 10000 in Hy. lia. }
-    lia.
-Qed.
-
-Lemma date_body_length y mo d h mi s : 0 <= mo <= 99 -> 0 <= d <= 99 -> 0 <= h <= 99 -> 0 <= mi <= 99 -> 0 <= s <= 99 ->
-  length (date_body y mo d h mi s) = (length (fmt_int 4 y) + 15)%nat.
-Proof.
-  intros. unfold date_body. rewrite !app_length.
-  destruct (two_spec mo) as (E1 & L1 & _); [lia|]. destruct (two_spec d) as (E2 & L2 & _); [lia|].
-  destruct (two_spec h) as (E3 & L3 & _); [lia|]. destruct (two_spec mi) as (E4 & L4 & _); [lia|].
-  destruct (two_spec s) as (E5 & L5 & _); [lia|].
-  rewrite E1, E2, E3, E4, E5, L1, L2, L3, L4, L5. cbn [length]. lia.
+  - pose proof (dec_length_le y k ltac:(lia) ltac:(lia)).
+    destruct (y <=? 9999) eqn:E; [rewrite pad0_length; lia | cbn [length]; lia].
 Qed.
 
 Definition printed_text (y mo d h mi s : Z) (fr : option (nat * Z)) : list N :=
-  year_printed y ++ [c_minus] ++ two mo ++ [c_minus] ++ two d ++ [c_T] ++ two h ++ [c_colon] ++ two mi ++ [c_colon] ++ two s ++
+  year_text y ++ [c_minus] ++ two mo ++ [c_minus] ++ two d ++ [c_T] ++ two h ++ [c_colon] ++ two mi ++ [c_colon] ++ two s ++
   (match fr with None => [] | Some (w, cnt) => c_dot :: pad0 w (dec cnt) end) ++ [c_Z].
 
-(* PrintIsoUtc succeeds inside the buffer whenever sign + year digits + 15 (+ fraction) + 'Z' <= 32 *)
-Lemma print_iso_utc_ok y mo d h mi s (fr : option (nat * Z)) :
+(* PrintIsoUtc succeeds inside the buffer whenever sign + year digits + 15 (+ fraction) + 'Z' <= 48 *)
+Lemma print_iso_utc_ok y mo d h mi s (fr : option (nat * Z)) : fits I64 y = true ->
   0 <= mo <= 99 -> 0 <= d <= 99 -> 0 <= h <= 99 -> 0 <= mi <= 99 -> 0 <= s <= 99 ->
   (match fr with
-   | None => (length (year_printed y) + 15 <= 31)%nat
-   | Some (w, cnt) => frac_width w /\ 0 <= cnt < p10 w /\ (length (year_printed y) + 15 + 1 + w <= 31)%nat
+   | None => (length (year_text y) + 15 <= 47)%nat
+   | Some (w, cnt) => frac_width w /\ 0 <= cnt < p10 w /\ (length (year_text y) + 15 + 1 + w <= 47)%nat
    end) ->
   print_iso_utc y mo d h mi s (match fr with None => None | Some (w, cnt) => Some (I64, p10 w, cnt) end)
   = Ok (printed_text y mo d h mi s fr).
 Proof.
-  intros Hmo Hd Hh Hmi Hs Hfit. unfold print_iso_utc.
-  set (pre := if 10000 <=? y then [c_plus] else []).
-  set (body := date_body y mo d h mi s).
-  assert (Hlen : (length (pre ++ body) = length (year_printed y) + 15)%nat).
-  { rewrite app_length. unfold body. rewrite date_body_length by assumption.
-    unfold year_printed. fold pre. rewrite app_length. lia. }
+  intros Hy Hmo Hd Hh Hmi Hs Hfit. unfold print_iso_utc.
+  set (pre := if 10000 <=? y then [c_plus] else if y <? 0 then [c_minus] else []).
+  set (yd := pad0 4 (dec (if y <? 0 then cast U64 (0 - cast U64 y) else cast U64 y))).
+  assert (Hyt : pre ++ yd = year_text y) by (rewrite <- (year_printed_spec y Hy); reflexivity).
+  destruct (two_spec mo ltac:(lia)) as (E1 & L1 & _). destruct (two_spec d ltac:(lia)) as (E2 & L2 & _).
+  destruct (two_spec h ltac:(lia)) as (E3 & L3 & _). destruct (two_spec mi ltac:(lia)) as (E4 & L4 & _).
+  destruct (two_spec s ltac:(lia)) as (E5 & L5 & _).
+  rewrite E1, E2, E3, E4, E5.
+  set (body := yd ++ [c_minus] ++ two mo ++ [c_minus] ++ two d ++ [c_T] ++ two h ++ [c_colon] ++ two mi ++ [c_colon] ++ two s).
+  assert (Htxt : pre ++ body = year_text y ++ [c_minus] ++ two mo ++ [c_minus] ++ two d ++ [c_T] ++ two h ++ [c_colon] ++ two mi ++ [c_colon] ++ two s).
+  { unfold body. rewrite app_assoc, Hyt. reflexivity. }
+  assert (Hlen : (length (pre ++ body) = length (year_text y) + 15)%nat).
+  { rewrite Htxt, !app_length, L1, L2, L3, L4, L5. cbn [length]. lia. }
   assert (Hpos1 : Z.of_nat (length pre) + Z.of_nat (length body) = Z.of_nat (length (pre ++ body))) by (rewrite app_length; lia).
-  rewrite Hpos1.
-  assert (Htxt : pre ++ body = year_printed y ++ [c_minus] ++ two mo ++ [c_minus] ++ two d ++ [c_T] ++ two h ++ [c_colon] ++ two mi ++ [c_colon] ++ two s).
-  { unfold body, date_body, year_printed. fold pre.
-    destruct (two_spec mo) as (E1 & _); [lia|]. destruct (two_spec d) as (E2 & _); [lia|].
-    destruct (two_spec h) as (E3 & _); [lia|]. destruct (two_spec mi) as (E4 & _); [lia|].
-    destruct (two_spec s) as (E5 & _); [lia|].
-    rewrite E1, E2, E3, E4, E5, <- !app_assoc. reflexivity. }
+  assert (Hsz : (BufSize - Z.of_nat (length pre) <=? Z.of_nat (length body)) = false).
+  { unfold BufSize. rewrite app_length in Hlen. destruct fr as [[w cnt]|]; lia. }
+  rewrite Hsz, Hpos1.
   destruct fr as [[w cnt]|].
   - destruct Hfit as (Hw & Hc & Hl).
     rewrite psf_print by (try assumption; lia). rewrite bind_ok.
@@ -209,44 +211,60 @@ Proof.
   replace (dec_value ds <? mn) with false by lia. replace (mx <? dec_value ds) with false by lia. reflexivity.
 Qed.
 
-Lemma parse_part_year y rest : fits I64 y = true -> - p10 18 < y < p10 18 ->
-  parse_part I64 (year_printed y ++ c_minus :: rest) None None (Some c_minus) true = Ok (y, rest).
+Lemma parse_part_year y rest : fits I64 y = true -> - p10 19 < y < p10 19 ->
+  parse_part I64 (year_text y ++ c_minus :: rest) None None (Some c_minus) true = Ok (y, rest).
 Proof.
-  intros Hf Hy. unfold year_printed, fmt_int, parse_part.
-  assert (H20 : p10 18 <= p10 20) by (apply p10_mono; lia).
+  intros Hf Hy. unfold year_text, parse_part.
+  assert (H20 : p10 19 <= p10 20) by (apply p10_mono; lia).
   assert (Hnd : no_digit_head (c_minus :: rest)) by reflexivity.
   destruct (Z.ltb_spec y 0) as [Hneg|Hnn].
-  - replace (10000 <=? y) with false by lia. cbn [app orb andb].
+  - cbn [app orb andb].
     replace (c_minus =? c_plus)%N with false by reflexivity. rewrite orb_true_r.
     destruct (dec_spec (- y) ltac:(lia)) as (Hd & Hv & _).
     rewrite from_chars_minus; [| reflexivity | apply pad0_digits; exact Hd | apply pad0_nonempty, dec_nonempty; lia | exact Hnd].
     rewrite pad0_value, Hv, Z.opp_involutive, Hf. rewrite N.eqb_refl. reflexivity.
   - destruct (dec_spec y ltac:(lia)) as (Hd & Hv & _).
-    destruct (Z.leb_spec 10000 y) as [Hbig|Hsmall].
-    + cbn [app]. rewrite orb_true_r. rewrite N.eqb_refl. cbn [andb].
-      rewrite from_chars_numeral; [| apply pad0_digits; exact Hd | apply pad0_nonempty, dec_nonempty; lia | exact Hnd].
-      rewrite pad0_value, Hv, Hf. rewrite N.eqb_refl. reflexivity.
-    + cbn [app].
-      destruct (hd_digit (pad0 4 (dec y)) (c_minus :: rest)) as (c & t & E & Hc);
+    destruct (Z.leb_spec y 9999) as [Hsmall|Hbig].
+    + destruct (hd_digit (pad0 4 (dec y)) (c_minus :: rest)) as (c & t & E & Hc);
         [apply pad0_digits; exact Hd | apply pad0_nonempty, dec_nonempty; lia |].
       rewrite E, Hc. cbn [orb].
       replace (c =? c_plus)%N with false by (unfold is_digit, c_plus in *; lia). cbn [andb]. rewrite <- E.
       rewrite from_chars_numeral; [| apply pad0_digits; exact Hd | apply pad0_nonempty, dec_nonempty; lia | exact Hnd].
       rewrite pad0_value, Hv, Hf. rewrite N.eqb_refl. reflexivity.
+    + cbn [app]. rewrite orb_true_r. rewrite N.eqb_refl. cbn [andb].
+      rewrite from_chars_numeral; [| exact Hd | apply dec_nonempty; lia | exact Hnd].
+      rewrite Hv, Hf. rewrite N.eqb_refl. reflexivity.
 Qed.
 
 Lemma two_nonempty v : 0 <= v <= 99 -> two v <> [].
 Proof. intros H. destruct (two_spec v H) as (_ & L & _). destruct (two v); [cbn in L; lia | discriminate]. Qed.
 
+Lemma dim_le_table y m : 1 <= m <= 12 -> dim y m <= DaysInMonth m.
+Proof.
+  intros Hm. unfold dim, DaysInMonth.
+  assert (Hc : m = 1 \/ m = 2 \/ m = 3 \/ m = 4 \/ m = 5 \/ m = 6 \/ m = 7 \/ m = 8 \/ m = 9 \/ m = 10 \/ m = 11 \/ m = 12) by lia.
+  destruct Hc as [?|[?|[?|[?|[?|[?|[?|[?|[?|[?|[?|?]]]]]]]]]]]; subst m; cbn; destruct (leap y); lia.
+Qed.
+
+(* the C++ leap-year expression (truncating %) is the leap rule *)
+Lemma leap_rem y : (Z.rem y 4 =? 0) && (negb (Z.rem y 100 =? 0) || (Z.rem y 400 =? 0)) = leap y.
+Proof.
+  unfold leap.
+  assert (H : forall k, 0 < k -> (Z.rem y k =? 0) = (y mod k =? 0)).
+  { intros k Hk. pose proof (Z.rem_divide y k ltac:(lia)). pose proof (Z.mod_divide y k ltac:(lia)).
+    destruct (Z.eqb_spec (Z.rem y k) 0), (Z.eqb_spec (y mod k) 0); tauto. }
+  rewrite !H by lia. reflexivity.
+Qed.
+
 Theorem parse_printed y mo d h mi s (fr : option (nat * Z)) :
-  fits I64 y = true -> - p10 18 < y < p10 18 ->
-  1 <= mo <= 12 -> 1 <= d <= DaysInMonth mo -> 0 <= h <= 23 -> 0 <= mi <= 59 -> 0 <= s <= 59 ->
+  fits I64 y = true -> - p10 19 < y < p10 19 ->
+  valid_date (y, mo, d) -> 0 <= h <= 23 -> 0 <= mi <= 59 -> 0 <= s <= 59 ->
   (match fr with None => True | Some (w, cnt) => frac_width w /\ 0 <= cnt < p10 w end) ->
   parse_iso_utc (printed_text y mo d h mi s fr) =
   Ok (mkUtc y mo d h mi s (match fr with None => None | Some (w, cnt) => Some (cnt * 10 ^ (9 - Z.of_nat w)) end)).
 Proof.
-  intros Hfy Hy Hmo Hd Hh Hmi Hs Hfr.
-  assert (Hdm : DaysInMonth mo <= 31) by (unfold DaysInMonth; repeat match goal with |- context [match ?x with _ => _ end] => destruct x end; lia).
+  intros Hfy Hy [Hmo Hd] Hh Hmi Hs Hfr.
+  pose proof (dim_le_table y mo Hmo) as Htab. assert (Hdim : 28 <= dim y mo <= 31) by (unfold dim; repeat match goal with |- context [if ?c then _ else _] => destruct c end; lia).
   destruct (two_spec mo ltac:(lia)) as (_ & _ & D1 & V1). destruct (two_spec d ltac:(lia)) as (_ & _ & D2 & V2).
   destruct (two_spec h ltac:(lia)) as (_ & _ & D3 & V3). destruct (two_spec mi ltac:(lia)) as (_ & _ & D4 & V4).
   destruct (two_spec s ltac:(lia)) as (_ & _ & D5 & V5).
@@ -256,6 +274,12 @@ Proof.
   rewrite bind_ok, V1.
   rewrite (parse_part_field (two d)); [| exact D2 | apply two_nonempty; lia | reflexivity | rewrite V2; apply fits_I32; lia | rewrite V2; lia].
   rewrite bind_ok, V2.
+  (* 29 February only in leap years *)
+  rewrite leap_rem.
+  assert (Hleap : (mo =? 2) && (d =? 29) && negb (leap y) = false).
+  { destruct (Z.eqb_spec mo 2) as [E2|E2]; [|reflexivity]. destruct (Z.eqb_spec d 29) as [E29|E29]; [|reflexivity].
+    subst mo d. unfold dim in Hd. cbn [Z.eqb Pos.eqb] in Hd. destruct (leap y); [reflexivity | lia]. }
+  rewrite Hleap, bind_ok.
   rewrite (parse_part_field (two h)); [| exact D3 | apply two_nonempty; lia | reflexivity | rewrite V3; apply fits_I32; lia | rewrite V3; lia].
   rewrite bind_ok, V3.
   rewrite (parse_part_field (two mi)); [| exact D4 | apply two_nonempty; lia | reflexivity | rewrite V4; apply fits_I32; lia | rewrite V4; lia].
